@@ -165,6 +165,23 @@ def is_zip_call(t: T) -> bool:
         not t.args[2] and not any(a.op == "star" for a in t.args[1])
 
 
+def _own_jumps(body) -> bool:
+    """does a loop body contain a break / continue of *this* loop (jumps
+    inside nested loops belong to those)"""
+    todo = list(body)
+    while todo:
+        n = todo.pop()
+        if isinstance(n, (ast.Break, ast.Continue)):
+            return True
+        if isinstance(n, (ast.For, ast.While, ast.AsyncFor)):
+            todo.extend(n.orelse)
+            continue
+        if isinstance(n, (ast.FunctionDef, ast.Lambda, ast.ClassDef)):
+            continue
+        todo.extend(ast.iter_child_nodes(n))
+    return False
+
+
 class Interp:
     def __init__(self, prog: Program,
                  inline: Callable[[Function], bool] = lambda f: False,
@@ -246,6 +263,7 @@ class Interp:
         self._narrow = []
         self.inlined_envs = []
         self._root = fn
+        self._root_cls = self_cls
         self.attrs = dict(preset_attrs or {})
         frame = self._make_frame(fn, args or {}, self_cls, depth=0)
         self.stack.append(fn.qualname)
@@ -765,8 +783,7 @@ class Interp:
         if lit is not None and itu.op not in ("tuple", "list") and \
                 not is_range_literal(itu):
             itu = T("tuple", *lit)         # enumerate / zip of literals
-        has_jump = any(isinstance(n, (ast.Break, ast.Continue))
-                       for st in s.body for n in ast.walk(st))
+        has_jump = _own_jumps(s.body)
         nested_loop = any(isinstance(n, (ast.For, ast.While))
                           for st in s.body for n in ast.walk(st))
         if itu.op in ("tuple", "list") and 0 < len(itu.args) <= 8 and \
@@ -783,9 +800,7 @@ class Interp:
                 self.assign(s.target, x, frame, live, s)
                 live = self.exec_block(s.body, frame, live)
             return live
-        if is_range_literal(itu) and not s.orelse and not any(
-                isinstance(n, (ast.Break, ast.Continue))
-                for st in s.body for n in ast.walk(st)):
+        if is_range_literal(itu) and not s.orelse and not has_jump:
             for k in range_values(itu):
                 if tm.is_const(live, False):
                     break
@@ -1291,6 +1306,8 @@ class Interp:
                         return c
                 if fn.cls is not None and fn.params and \
                         fn.params[0] == t.args[0] and not fn.is_static:
+                    if fn is root and getattr(self, "_root_cls", None):
+                        return self._root_cls   # receiver class of the run
                     return fn.cls
         if t.op == "call" and t.args[0].op == "cls":
             return self.prog.classes.get(t.args[0].args[0])
